@@ -158,6 +158,24 @@ theorem set_fail_frame (c : Claims) (op : SetOp) (h : (applySet c op).2 ≠ .ok 
   have hn := applySet_fail c op ha
   exact ⟨hn, fun g => get_of_normalize_eq g _ _ hn, validate_of_normalize_eq _ _ hn⟩
 
+/-- … and *exactly* unchanged — the unobservable part of the state included, which is what the encodings of a type
+    embedding `P1Claims` show — for every refused setter call of profile 1 and every refused call of profile 2 other
+    than the component list (whose refused call may turn a nil container interface into an empty container; both
+    encode the same for every type, the claim having no `omitempty`). -/
+theorem set_fail_exact (c : Claims) (op : SetOp) (h : (applySet c op).2 ≠ .ok ())
+    (hp : c.prof = .p1 ∨ ∀ l, op ≠ .sw l) : (applySet c op).1 = c := by
+  have ha : accepts c.prof op = false := by
+    cases hh : accepts c.prof op
+    · rfl
+    · exact absurd ((applySet_ok_iff c op).mpr hh) h
+  exact applySet_fail_exact c op ha hp
+
+/-- non-vacuity: a refused component list on a profile-1 claims-set that has said "no measurements" -/
+example : (applySet { Claims.new .p1 with sw := .nilIface, noSw := some 1 } (.sw (some [⟨none, none, none, none, none⟩]))).2 ≠ .ok () ∧
+    (applySet { Claims.new .p1 with sw := .nilIface, noSw := some 1 } (.sw (some [⟨none, none, none, none, none⟩]))).1 =
+      { Claims.new .p1 with sw := .nilIface, noSw := some 1 } := by
+  constructor <;> decide
+
 /-- **History theorem** (last writer wins): after any sequence of setter calls on a fresh
     claims-set, the state is observably the canonical claims-set holding, per claim, the last
     value whose setter succeeded — independent of order, repetition and failed calls in between. -/
